@@ -3,6 +3,7 @@ package rules
 import (
 	"go/token"
 	"go/types"
+	"strings"
 
 	"fv/internal/core"
 	"fv/internal/ssax"
@@ -51,6 +52,12 @@ func C03(ctx *core.Ctx) {
 				}
 			}
 			ctx.Check(okRet, "C03.R4", ssax.Name(pm)+" › returns the encoded buffer", fnPos(r, pm), "return buffer.Bytes()", "the bytes handed to the transport are not the buffer the message was encoded into")
+			// the returned bytes alias the buffer: it must be allocated by this call
+			fresh := false
+			if bc, isC := CallValue(buffer); isC && bc.Static != nil && strings.HasPrefix(bc.Static.Name(), "NewTMemoryOutputBuffer") {
+				fresh = true
+			}
+			ctx.Check(fresh, "C03.R4", ssax.Name(pm)+" › output buffer is allocated per message", fnPos(r, pm), "NewTMemoryOutputBuffer(...) in this call", "the message is encoded into a buffer that outlives the call (field/shared): the bytes returned alias it, so a concurrent or following message overwrites a message that is still being transmitted — one message is lost and the next delivered twice")
 			for _, c := range ssax.Calls(pm) {
 				if _, op := protoOp(c); op == "WriteMessageBegin" {
 					var mp, kp *ssa.Parameter
